@@ -5,6 +5,8 @@ From Coq Require Import String List Bool.
 From QV Require Import Convert.ModelQuantize Convert.Adaptive Convert.Relu.
 From QVGen Require Import ConvertGen.
 From QV Require Import Link.ConvertLink.
+From QV Require Import Convert.ReluBranch Link.ReluLink.
+From QVGen Require Import ReluGen.
 Import ListNotations.
 Open Scope string_scope.
 
@@ -144,3 +146,18 @@ Theorem C12_relu_ignores_adaptive_entries : forall d l e, l_name l <> "QAdaptive
   assoc (l_name l) d = None -> assoc "QActivation" d = None -> convert_relu (("QAdaptiveActivation", e) :: d) l = l.
 Proof. exact relu_ignores_adaptive_entries. Qed.
 Print Assumptions C12_relu_ignores_adaptive_entries.
+
+(* ---- the ReLU-layer branch as /repo has it now (coq/gen/ReluGen.v, regenerated on every run by tools/translate/relugen.py) ---- *)
+Theorem C12_relu_translation_ok : relu_translation_ok = true.
+Proof. exact link_relu_ok. Qed.
+(* for every dictionary, every Keras ReLU layer and either sign of its slope the code's outcome is convert_relu *)
+Theorem C12_source_relu_branch_is_the_model : forall d l pos, l_act l = Some (relu_key pos) ->
+  realise d l pos (gen_relu_branch CReLU pos (classify d l pos)) = Some (convert_relu d l).
+Proof. exact link_relu_branch. Qed.
+Print Assumptions C12_source_relu_branch_is_the_model.
+Theorem C12_source_relu_slope_is_read_from_negative_slope : gen_relu_slope_key CReLU = "negative_slope".
+Proof. exact link_relu_slope_key. Qed.
+(* the known finding, stated about the regenerated code: a LeakyReLU layer is never converted (the branch raises a KeyError) *)
+Theorem C12_source_leakyrelu_never_converted : forall c pos e a, (c = CLeaky3 \/ c = CLeaky2) -> gen_relu_branch c pos e <> OConverted a.
+Proof. exact link_leakyrelu_never_converted. Qed.
+Print Assumptions C12_source_leakyrelu_never_converted.
